@@ -7,6 +7,7 @@ if ! git diff --quiet; then echo "repo dirty, refusing"; exit 2; fi
 git apply "$P" || { echo "patch does not apply"; exit 2; }
 trap 'git -C /repo checkout -- . ' EXIT
 cd /verif
+export VERIF_EVIDENCE_DIR=/verif/.work/evidence-trial
 for p in "$@"; do
   echo "=== $p"; ./check "$p" 2>&1 | grep -E "^(VIOLATION|OK|INCONCLUSIVE|KNOWN|  obligation)" ; echo "exit=${PIPESTATUS[0]}"
 done
